@@ -133,10 +133,13 @@ def run_unit(unit, tier='quick', _extra_fns=None):
     for e in errs:
         reg = asm.region_of(e['line'])
         # a precondition failure is reported at the call site; other errors inside the function
-        if reg is None:
+        if reg is None or reg[3] == 'env':
+            # reported at a callee's contract or inside a macro definition of the source file: the labelled spans
+            # ("in this macro invocation", the call site) say which extracted function it belongs to
             for ln, _ in e['labelled']:
-                reg = asm.region_of(ln)
-                if reg:
+                r2 = asm.region_of(ln)
+                if r2 and r2[3] != 'env':
+                    reg = r2
                     break
         if U.get('only_kinds') and not e['code'] and not re.search(U['only_kinds'], e['kind']):
             continue    # an obligation of another property decided by the sibling variant of this unit
